@@ -5,15 +5,18 @@ import re
 
 import common
 from common import clist, cstr, cz
+from gen import resfile as rf
 import impl_model as im
 
 THEOREMS = ['C17_never_reports_wildcards', 'C17_complete_restraint_silent', 'C17_missing_atom_reported', 'C17_reported_are_absent',
-            'C17_reported_bare_absent', 'C17_restr_example']
+            'C17_reported_bare_absent', 'C17_reported_exactly', 'C17_restr_example', 'C17_star_example']
 IMPORTS = 'From SX Require Import Base.Prelude Base.Str Model.Restr.\n'
 HEAD = ['TITL test', 'CELL 0.71073 10.5 11.2 12.3 90 95.5 90', 'ZERR 4 0.001 0.002 0.003 0.01 0.02 0.03', 'LATT 1', 'SYMM -X, 1/2+Y, 1/2-Z',
         'SFAC C H O N', 'UNIT 16 20 4 2', 'FVAR 1.0 0.6']
-KWS = [('SADI', ''), ('DFIX', '1.5'), ('DANG', '2.5'), ('SIMU', ''), ('DELU', ''), ('RIGU', ''), ('ISOR', ''), ('FLAT', ''), ('SAME', ''), ('CHIV', ''),
-       ('EADP', ''), ('EXYZ', ''), ('NCSY', '1')]
+# keyword, obligatory numerical parameters, optional ones (a random prefix of them is written, in any legal spelling: '.02', '+0.02', ...)
+KWS = [('SADI', [], ['0.02']), ('DFIX', ['1.5'], ['0.03']), ('DANG', ['2.5'], ['0.05']), ('SIMU', [], ['0.04', '0.08', '1.7']), ('DELU', [], ['0.01', '0.02']),
+       ('RIGU', [], ['0.004', '0.005']), ('ISOR', [], ['0.1', '0.2']), ('FLAT', [], ['0.1']), ('SAME', [], ['0.02', '0.04']), ('CHIV', [], ['0.5', '0.1']),
+       ('EADP', [], []), ('EXYZ', [], []), ('NCSY', ['1'], ['0.1', '0.05'])]
 NAMES = ['C1', 'C2', 'C3', 'O1', 'N1']
 
 
@@ -39,7 +42,10 @@ def gen_case(rng):
             k += 1
             lines.append('%s 1 %.3f %.3f %.3f 11.0 0.04' % (nm if rng.random() < 0.8 else nm.lower(), 0.01 * k, 0.5, 0.3))
     lines.append('RESI 0')
-    kw, num = rng.choice(KWS)
+    kw, obl, opt = rng.choice(KWS)
+    num = obl + opt[:rng.randint(0, len(opt))]
+    if rng.random() < 0.5:
+        num = [rf.respell(t, rng.randint(0, 5)) for t in num]
     mode = rng.choice(['none', 'none', 'num', 'class', 'star', 'missingclass'])
     if mode == 'num' and residues:
         sfx = ('num', rng.choice(residues)[0])
@@ -63,15 +69,19 @@ def gen_case(rng):
             items.append(('name', nm, rng.choice(residues)[0], False))
         elif r < 0.45:
             items.append(('name', nm, None, True))
+        elif r < 0.57 and residues:
+            items.append(('star', nm))
         else:
             items.append(('name', nm, None, False))
     if kw in ('SADI', 'DFIX', 'DANG') and len([i for i in items if i[0] == 'name']) % 2:
         items.append(('name', rng.choice(atoms[0]), None, False))
     head = kw + {'none': '', 'num': '_%s' % sfx[1], 'class': '_%s' % (sfx[1] if rng.random() < 0.7 else str(sfx[1]).lower()), 'star': '_*'}[sfx[0]]
-    toks = [head] + ([num] if num else [])
+    toks = [head] + num
     for it in items:
         if it[0] in ('range', 'elem'):
             toks.append(it[1])
+        elif it[0] == 'star':
+            toks.append(it[1] + '_*')
         else:
             t = it[1] + ('_%d' % it[2] if it[2] is not None else '') + ('_$1' if it[3] else '')
             toks.append(t)
@@ -106,6 +116,7 @@ def run(ctx):
     terms, defs = [], []
     ev = 0
     hist = {}
+    exact_diffs = []
     for k in range(n):
         lines, residues, atoms, sfx, items = gen_case(rng)
         text = '\n'.join(HEAD + lines + ['HKLF 4', 'END']) + '\n'
@@ -117,11 +128,13 @@ def run(ctx):
             common.add_violation(ctx, 'file with a valid restraint raises', case, 'ok', '%s %s' % (status, inner))
             continue
         must, mustnot = set(), set()
+        exact = set()       # per-residue reading: (name, residue) pairs that are asked for and absent
         for it in items:
-            if it[0] != 'name':
+            if it[0] not in ('name', 'star'):
                 continue
-            nm, own = it[1], it[2]
-            adr = addressed(residues, sfx, own)
+            nm, own = it[1], (it[2] if it[0] == 'name' else None)
+            adr = [r for r, _ in residues] if it[0] == 'star' else addressed(residues, sfx, own)
+            exact |= set((nm, r) for r in (adr or ([0] if it[0] == 'name' else [])) if nm not in atoms.get(r, []))
             present = [r for r in adr if nm in atoms.get(r, [])]
             if adr and not present:
                 must.add(nm)
@@ -133,13 +146,26 @@ def run(ctx):
             common.add_violation(ctx, 'an element wildcard, range operator or symmetry suffix is reported as unknown atom', case, 'never reported', x)
         if wild:
             continue
+        item_names = set(it[1] for it in items if it[0] in ('name', 'star'))
+        foreign = sorted(rep_names - item_names)
+        if foreign:
+            common.add_violation(ctx, 'something that is not an atom of the restraint (a numerical parameter?) is reported as unknown atom', case, 'only atoms of the restraint', foreign)
+            continue
+        try:
+            got_pairs = set((x.split('_')[0], int(x.split('_')[1]) if '_' in x else 0) for x in rep)
+        except ValueError:
+            got_pairs = None
+        if got_pairs != exact:
+            exact_diffs.append((dict(case, reading='per residue: NAME_n is reported exactly when an item asks for NAME in residue n and no such atom exists'),
+                                sorted(exact), rep))
         for nm in must - mustnot:
             if nm not in rep_names:
                 common.add_violation(ctx, 'an atom that exists in none of the addressed residues is not reported', dict(case, atom=nm), 'reported', rep)
         for nm in mustnot - must:
             # the same name may legitimately be reported through another item of the same restraint
-            others = [it for it in items if it[0] == 'name' and it[1] == nm]
-            if nm in rep_names and all(addressed(residues, sfx, it[2]) and all(nm in atoms.get(r, []) for r in addressed(residues, sfx, it[2])) for it in others):
+            others = [it for it in items if it[0] in ('name', 'star') and it[1] == nm]
+            adr_of = lambda it: [r for r, _ in residues] if it[0] == 'star' else addressed(residues, sfx, it[2])
+            if nm in rep_names and all(adr_of(it) and all(nm in atoms.get(r, []) for r in adr_of(it)) for it in others):
                 common.add_violation(ctx, 'an atom that exists in every addressed residue is reported as unknown', dict(case, atom=nm), 'no message', rep)
         # correspondence with the Coq model: exact list of reported names (as name or name_n)
         fi = '{| fi_atoms := %s; fi_residues := %s |}' % (
@@ -153,6 +179,8 @@ def run(ctx):
                 ra.append('ARange')
             elif it[0] == 'elem':
                 ra.append('AElem (lit %s)' % cstr(it[1][1:]))
+            elif it[0] == 'star':
+                ra.append('AStar (lit %s)' % cstr(it[1].upper()))
             else:
                 ra.append('AName (lit %s) %s' % (cstr(it[1].upper()), 'None' if it[2] is None else '(Some %s)' % cz(it[2])))
         got = clist(['(lit %s, %s)' % (cstr(x.split('_')[0]), 'None' if '_' not in x else '(Some %s)' % cz(int(x.split('_')[1]))) for x in rep])
@@ -170,11 +198,16 @@ def run(ctx):
     nbad = sum(1 for res in results if not common.parse_bool(res[0]))
     if nbad:
         ctx.broken.append('correspondence Model/Restr.v reported differs from Shelxfile.restraint_errors in %d shards' % nbad)
+    if ctx.broken:
+        # failing-input search in the reading the theorems prove for the model (C17_reported_exactly); consulted only when an
+        # obligation or the correspondence no longer checks, so that an implementation with the same messages is never alarmed
+        for c, e, g in exact_diffs[:20]:
+            common.add_violation(ctx, 'messages differ from the (name, residue) pairs that are asked for and absent', c, e, g)
     ctx.cov['evaluations'] = ev
     ctx.cov['distinct_nontrivial'] = ev
     ctx.cov['rule'] = ('random files with 0-4 residues (three classes, classless residues), 1-5 atom names per residue, one restraint of every keyword in '
-                       'every addressing mode (none / _number / _class in either case / _* / a class without residues) whose 2-5 items are names, name_n, name_$1, '
-                       '$element, < or >, with the absent name C9 mixed in; all random, hence distinct')
+                       'every addressing mode (none / _number / _class in either case / _* / a class without residues), numerical parameters in several spellings, whose 2-5 items are '
+                       'names, name_n, name_*, name_$1, $element, < or >, with the absent name C9 mixed in; all random, hence distinct')
     ctx.notes.setdefault('coverage_extra', {})['addressing_histogram'] = hist
     ctx.assumptions += ['a keyword suffix _* is read as residue 0 (the library does so; the lenient reading of the property accepts it)',
                         'hand-written model Model/Restr.v validated on the generated restraints']
